@@ -36,11 +36,12 @@ Proof.
   - apply Forall_map. apply Forall_forall. intros x Hx. apply in_seq in Hx. lia.
 Qed.
 
-(** container invariant *)
+(** container invariant: ids of the members are unique, non-zero and reserved *)
 Definition cont_inv (m : container) : Prop :=
-  NoDup (map fst (c_accs m)) /\ Forall (fun a => fst a <> 0) (c_accs m) /\ 1 <= c_count m.
+  NoDup (map fst (c_accs m)) /\ Forall (fun a => fst a <> 0) (c_accs m) /\ 1 <= c_count m /\
+  (forall x, In x (map fst (c_accs m)) -> In x (c_reserved m)).
 
-Lemma existsb_aid l aid : existsb (fun a : N * shape => fst a =? aid) l = false -> ~ In aid (map fst l).
+Lemma existsb_reserved l aid : existsb (N.eqb aid) l = false -> ~ In aid l.
 Proof.
   induction l as [|a l IH]; cbn; intros H; [tauto|].
   apply orb_false_iff in H. destruct H as [H1 H2]. apply N.eqb_neq in H1. intros [E|E]; [congruence|apply IH; assumption].
@@ -56,46 +57,84 @@ Qed.
 
 Lemma add_inv m eid s : cont_inv m -> cont_inv (fst (add_accessory m eid s)).
 Proof.
-  intros (Hn & Hz & Hc). unfold add_accessory, cont_inv.
+  intros (Hn & Hz & Hc & Hr). unfold add_accessory, cont_inv.
   destruct (eid =? 0) eqn:E.
-  - destruct (existsb (fun a => fst a =? c_count m) (c_accs m)) eqn:Ex; cbn [fst c_accs c_count].
-    + split; [exact Hn|]. split; [exact Hz|lia].
-    + split; [|split].
-      * rewrite map_app. cbn [map fst]. apply nodup_snoc; [exact Hn|apply (existsb_aid _ _ Ex)].
+  - destruct (existsb (N.eqb (c_count m)) (c_reserved m)) eqn:Ex; cbn [fst c_accs c_count c_reserved].
+    + split; [exact Hn|]. split; [exact Hz|]. split; [lia|exact Hr].
+    + split; [|split; [|split]].
+      * rewrite map_app. cbn [map fst]. apply nodup_snoc; [exact Hn|]. intros Hi. exact (existsb_reserved _ _ Ex (Hr _ Hi)).
       * apply Forall_app. split; [exact Hz|]. constructor; [cbn [fst]; lia|constructor].
       * lia.
-  - apply N.eqb_neq in E. destruct (existsb (fun a => fst a =? eid) (c_accs m)) eqn:Ex; cbn [fst c_accs c_count].
-    + split; [exact Hn|]. split; [exact Hz|exact Hc].
-    + split; [|split].
-      * rewrite map_app. cbn [map fst]. apply nodup_snoc; [exact Hn|apply (existsb_aid _ _ Ex)].
+      * intros x Hx. rewrite map_app in Hx. apply in_app_or in Hx. destruct Hx as [Hx|[<-|[]]]; [right; apply Hr; exact Hx|left; reflexivity].
+  - apply N.eqb_neq in E. destruct (existsb (N.eqb eid) (c_reserved m)) eqn:Ex; cbn [fst c_accs c_count c_reserved].
+    + split; [exact Hn|]. split; [exact Hz|]. split; [exact Hc|exact Hr].
+    + split; [|split; [|split]].
+      * rewrite map_app. cbn [map fst]. apply nodup_snoc; [exact Hn|]. intros Hi. exact (existsb_reserved _ _ Ex (Hr _ Hi)).
       * apply Forall_app. split; [exact Hz|]. constructor; [cbn [fst]; exact E|constructor].
       * exact Hc.
+      * intros x Hx. rewrite map_app in Hx. apply in_app_or in Hx. destruct Hx as [Hx|[<-|[]]]; [right; apply Hr; exact Hx|left; reflexivity].
 Qed.
+
+Lemma remove_nth_in {A} (l : list A) : forall i x, In x (remove_nth i l) -> In x l.
+Proof. induction l as [|a l IH]; intros [|i] x H; cbn in *; auto. destruct H; [left; assumption|right; eapply IH; eassumption]. Qed.
+Lemma remove_nth_map {A B} (f : A -> B) (l : list A) : forall i, map f (remove_nth i l) = remove_nth i (map f l).
+Proof. induction l as [|a l IH]; intros [|i]; cbn; auto. f_equal. apply IH. Qed.
+Lemma remove_nth_nodup {A} (l : list A) : forall i, NoDup l -> NoDup (remove_nth i l).
+Proof.
+  induction l as [|a l IH]; intros [|i] H; cbn; auto; inversion H; subst; auto.
+  constructor; [intros Hi; apply remove_nth_in in Hi; contradiction|apply IH; assumption].
+Qed.
+
+Lemma remove_inv m mem : cont_inv m -> cont_inv (remove_accessory m mem).
+Proof.
+  intros (Hn & Hz & Hc & Hr). destruct mem as [i|]; [|repeat split; assumption]. unfold remove_accessory, cont_inv. cbn [c_accs c_count c_reserved].
+  split; [rewrite remove_nth_map; apply remove_nth_nodup; exact Hn|]. split; [|split; [exact Hc|]].
+  - rewrite Forall_forall in *. intros x Hx. apply Hz. eapply remove_nth_in. exact Hx.
+  - intros x Hx. apply Hr. rewrite remove_nth_map in Hx. eapply remove_nth_in. exact Hx.
+Qed.
+
+(** histories of additions and removals *)
+Inductive cop := CAdd (eid : N) (s : shape) | CRemove (member : option nat).
+Definition capply (m : container) (o : cop) : container :=
+  match o with CAdd eid s => fst (add_accessory m eid s) | CRemove mem => remove_accessory m mem end.
+
+Lemma history_inv : forall ops m, cont_inv m -> cont_inv (fold_left capply ops m).
+Proof. induction ops as [|o ops IH]; intros m H; cbn [fold_left]; [exact H|]. apply IH. destruct o; [apply add_inv|apply remove_inv]; exact H. Qed.
 
 Lemma add_all_inv_from : forall l m, cont_inv m ->
   cont_inv (fold_left (fun m a => fst (add_accessory m (fst a) (snd a))) l m).
 Proof. induction l as [|a l IH]; intros m H; cbn [fold_left]; [exact H|]. apply IH. apply add_inv. exact H. Qed.
 
-(** C14: for every composition, accessory ids in the container are unique and non-zero *)
+Lemma empty_inv : cont_inv empty_container.
+Proof. unfold cont_inv, empty_container. cbn. repeat split; [constructor|constructor|lia|intros x []]. Qed.
+
+(** C14: for every composition, accessory ids in the container are unique and non-zero (a duplicate is rejected) *)
 Lemma container_ids l :
   NoDup (map fst (c_accs (add_all l))) /\ Forall (fun a => fst a <> 0) (c_accs (add_all l)).
-Proof.
-  destruct (add_all_inv_from l empty_container) as (H1 & H2 & _).
-  - unfold cont_inv, empty_container. cbn. repeat split; [constructor|constructor|lia].
-  - split; assumption.
-Qed.
+Proof. destruct (add_all_inv_from l empty_container empty_inv) as (H1 & H2 & _). split; assumption. Qed.
+
+(** ... and for every history of additions and removals (of members and of non-members) *)
+Lemma container_ids_history ops :
+  let m := fold_left capply ops empty_container in
+  NoDup (map fst (c_accs m)) /\ Forall (fun a => fst a <> 0) (c_accs m).
+Proof. destruct (history_inv ops empty_container empty_inv) as (H1 & H2 & _). split; assumption. Qed.
 
 (** accepted accessories keep the id they were given (explicit) and the shapes they were built with *)
 Lemma add_accepted m eid s : snd (add_accessory m eid s) = true ->
   c_accs (fst (add_accessory m eid s)) = c_accs m ++ [((if eid =? 0 then c_count m else eid), s)].
 Proof.
-  unfold add_accessory. destruct (eid =? 0); destruct (existsb _ (c_accs m)); cbn; intros H; congruence.
+  unfold add_accessory. destruct (eid =? 0); destruct (existsb _ (c_reserved m)); cbn; intros H; congruence.
 Qed.
 
 Lemma ids_nonvacuous :
   instance_ids [6; 1; 3]%nat = [1; 2; 3; 4; 5; 6; 7; 8; 9; 10; 11; 12; 13] /\
   map fst (c_accs (add_all [(0, [6; 1]%nat); (5, [6]%nat); (0, [6]%nat); (2, [6]%nat); (0, [6]%nat)])) = [1; 5; 2; 3].
 Proof. split; vm_compute; reflexivity. Qed.
+
+(** removing an accessory that AddAccessory refused does not free the id of the member that has it *)
+Lemma refused_then_removed_stays_refused :
+  map fst (c_accs (fold_left capply [CAdd 7 [6]%nat; CAdd 7 [6]%nat; CRemove None; CAdd 7 [6]%nat; CRemove (Some 0%nat); CAdd 7 [6]%nat] empty_container)) = [].
+Proof. vm_compute. reflexivity. Qed.
 
 (** JSON shape of the attribute database: the mandatory members are always emitted (no omitempty) *)
 From Coq Require Import String.
